@@ -64,6 +64,17 @@ class Evaluator(object):
             if n.get("dk") == "enum":
                 return n.get("v")
             return None
+        if k == "Sub":
+            # element of a const global table with a constant index
+            b = strip(n["c"][0])
+            if b is not None and b["k"] == "Ref" and b.get("dk") == "global":
+                g = f.unit.globals.get(b["n"])
+                if g is not None and g.get("const") and isinstance(g.get("init"), dict) and g["init"].get("k") == "InitList":
+                    i = self.ev(n["c"][1])
+                    items = g["init"].get("c", [])
+                    if i is not None and 0 <= i < len(items) and items[i] is not None:
+                        return cval(items[i])
+            return None
         t = f.type_of(n)
         if k == "Cast":
             v = self.ev(n["c"][0])
@@ -218,7 +229,11 @@ class PathEval(object):
     MAXSTATES = 20000
 
     def __init__(self, program, func, env, is_effect=None, pure=PURE, depth=0, fail_value=None, memo=None, maxstates=None, through_effects=False, dirty_paths=False,
-                 call_values=None, markers=None):
+                 call_values=None, markers=None, observe=None, split=None, starts=None, track=None):
+        self.track = track                 # optional set of lvalue keys whose constants are kept (others are treated as unknown: fewer states, more paths)
+        self.starts = starts               # optional list of additional entry environments explored in the SAME run (shared state set)
+        self.observe = observe             # callback(node, env) for every CFG element reached (in evaluation order)
+        self.split = split or {}           # lvalue key -> finite domain: when the key becomes unknown it is forked over the domain
         self.call_values = call_values or {}   # callee name -> forced return value (the call is then treated as pure)
         self.markers = set(markers or ())      # callee names whose execution is remembered per path (terminals carry the set)
         self.through = through_effects or dirty_paths   # note effects but keep exploring
@@ -299,6 +314,12 @@ class PathEval(object):
         start = (f.entry, 0, tuple(sorted(self.env0.items())), None, None)
         seen = set([start])
         work = [start]
+        for e0 in (self.starts or ()):
+            st0 = (f.entry, 0, tuple(sorted(e0.items())), None, None)
+            if st0 not in seen:
+                seen.add(st0)
+                work.append(st0)
+                self.seeded |= set(e0)
 
         def push(st):
             if st not in seen:
@@ -318,6 +339,8 @@ class PathEval(object):
             while i < len(elems):
                 n = f.nodes[elems[i]]
                 nterm = len(out.terminals)
+                if self.observe is not None:
+                    self.observe(n, env)
                 r = self.step(n, env, err, out)
                 if self.dirty_paths and len(out.terminals) > nterm:
                     # effects recorded by step(): mark this path dirty, drop the global terminal
@@ -383,6 +406,10 @@ class PathEval(object):
             else:
                 nxt = [s for s in succs if s is not None]
             # drop per-call bindings when leaving the block's expression context? keep: they are keyed by node id
+            if self.track is not None:
+                # per-call result bindings are only needed inside the statement that made the call
+                for kk in [x for x in env if x.startswith("@")]:
+                    del env[kk]
             for s in nxt:
                 push((s, 0, tuple(sorted(env.items())), err, dirty))
             if f.exit in nxt and not self._ends_with_return(blk):
@@ -419,7 +446,7 @@ class PathEval(object):
                 init = v["c"][0] if v.get("c") else None
                 if init is not None:
                     val = self.evaluator(env).ev(init)
-                    if val is not None:
+                    if val is not None and (self.track is None or v["n"] in self.track):
                         env[v["n"]] = wrap(val, f.unit.types[v["t"]])
                     else:
                         env.pop(v["n"], None)
@@ -438,7 +465,7 @@ class PathEval(object):
                 # counters (++, +=, ...) are widened to unknown so that loops converge
                 if key is not None:
                     self.kill(env, key)
-                    if val is not None:
+                    if val is not None and (self.track is None or key in self.track):
                         env[key] = wrap(val, f.type_of(tgt))
                 return None
             # store to non-local memory
@@ -448,13 +475,30 @@ class PathEval(object):
                     return "stop"
             if key is not None:
                 self.kill(env, key)
+                val = None
                 if op == "=":
                     val = self.evaluator(env).ev(rhs)
-                    if val is not None:
+                    if val is not None and (self.track is None or key in self.track):
                         env[key] = wrap(val, f.type_of(tgt))
+                if val is None and key in self.split:
+                    return ("fork", [({key: v}, "KEEP") for v in self.split[key]])
             return None
         if k == "Call":
             fn = n.get("fn")
+            # an lvalue whose address is handed to the callee may be overwritten by it
+            addr_keys = []
+            for x in n["c"][1:]:
+                x2 = strip(x)
+                if x2 is not None and x2["k"] == "Unary" and x2["op"] == "&":
+                    kk = lv(x2["c"][0])
+                    if kk is not None:
+                        addr_keys.append(kk)
+            for kk in addr_keys:
+                if kk in env:
+                    del env[kk]
+            sp = [kk for kk in addr_keys if kk in self.split]
+            if sp:
+                return ("fork", [({sp[0]: v}, "KEEP") for v in self.split[sp[0]]])
             if fn in self.markers:
                 env["#" + fn] = 1
             if fn in self.call_values:
